@@ -169,7 +169,8 @@ theorem wnaf_new_mul_exact (w : Nat) (hw2 : 2 ≤ w) (hw : w < 64) (N : Nat) (g 
 example : wnafNewMul 4 (3 : ZMod 7) (toLimbs 2 (B + 4)) = .ok 4 := by decide +kernel
 example : wnafNewMul 2 (3 : ℤ) (toLimbs 1 (B - 1)) = .ok (3 * ((B - 1 : Nat) : ℤ)) := by
   decide +kernel
-example : wnafNewMul 63 (3 : ℤ) (toLimbs 1 11) = .ok 33 := by decide +kernel
+example : wnafNewMul 7 (3 : ℤ) (toLimbs 3 (B ^ 2 + 11)) = .ok (3 * ((B ^ 2 + 11 : Nat) : ℤ)) := by
+  decide +kernel
 
 /-- `WnafContext::new` panics exactly outside `2 ≤ w < 64`; nothing else in `mul` can panic -/
 theorem wnaf_new_mul_panic_iff (w : Nat) (g : G) (s : List Nat) (hs : WF s) :
